@@ -123,3 +123,27 @@ CLAIMED["C18"] = (CLAIMED["C18"][0] + "; the counting kernel's validation, alloc
     CLAIMED["C18"][1] + " Round 2: table shape and marginals of the kernel result; end-to-end on the data: MI symmetric for a data set against itself, diagonal = empirical entropy, bounds, frame-order and relabelling invariance, pooled = concatenation; weighted = plain MI under uniform weights (real values).",
     CLAIMED["C18"][2].replace("shape lemma for the kernel result and real-valued weighted=plain equality open; ", "frame-order / relabel laws for the default state count not proved; "),
     "DESIGN.md 7 C18")
+
+# ---- round 2, second wave (translators tying hand models to the source)
+def _r2(pid, tech_add, text_add, note_add):
+    t = CLAIMED[pid]
+    CLAIMED[pid] = (t[0] + "; " + tech_add, t[1] + " Round 2: " + text_add, t[2] + " " + note_add, t[3])
+_r2("C04", "builder dataflow regenerated from builders.py (translator/tr_builders.py) and proved equal to the model",
+    "prior added before estimation, C + C^T symmetrisation and halving, which matrix populations come from, zero-row guard and axis of the row sums, no in-place writes into the caller's buffers, eq_probs on T with its ARPACK guard - as regenerated from the source - equal Model/Builders.v for every container kind.",
+    "translator/tr_builders.py and the array vocabulary coq/Base/BuildersBase.v (scipy container-kind rules) trusted.")
+_r2("C06", "write-path structure regenerated from ra.py (translator/tr_ragged_ops.py: __setitem__ dispatch per index form, append, constructor per input class, operators, __slots__, starts/size) and proved to refine the model step by step",
+    "every regenerated __setitem__ branch ends with both representations current; generated flat-offset arithmetic equals the model's; append resets every slot; constructor copies by default; operators return new objects.",
+    "the meaning of each recognised statement (effect alphabet in coq/Base/RaOpsBase.v) is trusted.")
+_r2("C07", "system-building statements regenerated from core.py (translator/tr_tpt.py) and proved equal to the model; Gauss-Jordan proved sound and total on matrices with trivial kernel",
+    "row and column masking, right-hand side and its order of writes, sink-column sum, final pin, cost vector, lag scaling, fundamental-matrix formula as regenerated equal Model/TPT.v; existence: for ergodic input the code's systems have a solution and the stationary vector exists, is unique and positive (end-to-end theorems).",
+    "translator/tr_tpt.py and coq/Base/TptBase.v trusted.")
+_r2("C08", "flux expressions regenerated from tpt.py (translator/tr_flux.py, shape-typed) and proved equal to the model",
+    "broadcast orientation, q- = 1 - q+, diagonal reset, f - f^T orientation, positive part in both branches, density product and normalisation as regenerated equal Model/Flux.v.",
+    "shape typing of NumPy/scipy broadcasting in translator/tr_flux.py trusted.")
+_r2("C11", "trim_disconnected, TrimMapping and MSM.fit's trimming step regenerated from source (translator/tr_trim.py) and proved equal to the model for all inputs incl. sparse containers with duplicated stored entries",
+    "the generated trim equals the model on every input (threshold applies to counts, never to stored entries); generated TrimMapping and fit equal the model.",
+    "NumPy/SciPy words of coq/Base/TrimBase.v are trusted readings.")
+_r2("C17", "scalar logic of path.py regenerated (translator/tr_path.py) and proved equal to the model; conserved-flow fraction theorem",
+    "on acyclic conserved non-negative flows (sources listed once, disjoint from sinks) the subtract scheme with no path limit and cutoff <= 1 returns fluxes summing to at least cutoff x source outflow (c17_conserved_reaches_fraction); generated tests, reductions, constants and stopping rules equal the model's.",
+    "the fraction theorem is over exact rationals (doubles checked by the oracle at 1e-9 x total); loop skeleton coq/Base/PathBase.v tied by correspondence.")
+CLAIMED["C17"] = (CLAIMED["C17"][0], CLAIMED["C17"][1], CLAIMED["C17"][2].replace("'conserved flow reaches the requested fraction' and 'input unchanged' rest on the oracle / array comparison only", "'input unchanged' rests on the array comparison and the translator's copy-first rule"), CLAIMED["C17"][3])
